@@ -1203,7 +1203,8 @@ def run_impl(cases):
         chunks = [[] for _ in range(jobs)]
         # cases that did not answer for a reason of their own go last in their chunk
         lost = [c for c in again if "existence_error" in res.get(c["id"], "missing") or res.get(c["id"], "missing") == "missing"]
-        own = [c for c in again if c not in lost]
+        lost_ids = set(c["id"] for c in lost)
+        own = [c for c in again if c["id"] not in lost_ids]
         for i, c in enumerate(lost + own):
             chunks[i % jobs].extend(c["impl"])
         with ThreadPoolExecutor(max_workers=jobs) as ex:
